@@ -384,6 +384,10 @@ def sampleOps : List Op :=
   [.insert 4 40, .insert 2 20, .insert 6 60, .insert 1 10, .insertAt 2 3 30, .insert 5 50,
    .insertAt 6 7 70, .insert 8 80, .removeKey 4]
 
+example : Reach false (run false sampleOps) := reach_run _ _
+/-- a state reached through a bulk insert between two Maps followed by more ops -/
+example : Reach false (step' ((run false [.insert 9 1]).insertAll (run false sampleOps)).1 (.removeAt 2)) :=
+  Reach.step _ (Reach.insertAll (reach_run _ _) (reach_run _ _))
 example : abs (run false sampleOps) = [(1, 10), (2, 20), (3, 30), (5, 50), (6, 60), (7, 70), (8, 80)] := by
   decide +kernel
 example : (run false sampleOps).t.height = 3 ∧ (run false sampleOps).size = 7 := by decide +kernel
